@@ -53,7 +53,7 @@ def _default_line_timestamp_ranges_factory(self: "Kymo", exclude: bool):
 
     ts_min = self._timestamps(reduce=np.min)[0]
 
-    if exclude:
+    if exclude or len(ts_min) < 2:  # a single line has no line period: fall back on its exposure
         # Take the max value of each line to account for unfinished final line
         # and add one sample to have proper slicing
         delta_ts = int(1e9 / self.infowave.sample_rate)
